@@ -8,6 +8,7 @@ import (
 	"strings"
 
 	"github.com/osteele/liquid"
+	"github.com/osteele/liquid/expressions"
 	"github.com/osteele/liquid/render"
 )
 
@@ -96,6 +97,24 @@ func RegisterCustom(e *liquid.Engine) {
 	e.RegisterTag("xfail", func(c render.Context) (string, error) { return "", c.Errorf("custom failure %s", c.TagArgs()) })
 	e.RegisterTag("xwrapfail", func(c render.Context) (string, error) { return "", c.WrapError(errCustomPlain) })
 	e.RegisterTag("xplainfail", func(c render.Context) (string, error) { return "", errCustomPlain })
+	// xwhere_exp NAME, EXPR: a filter with a parameter of type expressions.Closure (the shape of Jekyll's where_exp):
+	// the library parses EXPR when the filter is applied and hands the filter a closure to evaluate per item
+	e.RegisterFilter("xwhere_exp", func(a []any, name string, cl expressions.Closure) (any, error) {
+		if cl == nil {
+			return nil, errCustomPlain // applied without the expression argument: the library passes the zero value
+		}
+		var out []any
+		for _, it := range a {
+			v, err := cl.Bind(name, it).Evaluate()
+			if err != nil {
+				return nil, err
+			}
+			if v != nil && v != false {
+				out = append(out, it)
+			}
+		}
+		return out, nil
+	})
 	e.RegisterBlock("xwrap", func(c render.Context) (string, error) {
 		a, err := c.ExpandTagArg()
 		if err != nil {
@@ -140,7 +159,7 @@ func RegisterCustom(e *liquid.Engine) {
 // EvaluateString and RenderFile: complete and incomplete objects, failing objects, tags inside arguments.
 var customFragments = []string{"", "x", "pre-{{ x }}-post", "{{ s }}{{ n }}", "{{", "{{ x", "x }}", "{{ 'a }}", "{{ x | nosuchfilter }}", "{{ 1 | divided_by: 0 }}",
 	"{{- x -}}", " {{ a | join: ',' }} ", "{{ a[9].b.c }}", "{{ nothing.y }}", "a == b", "1 | plus: 2", "a contains 1", "(1..3)", "'lit'", "x = 1", "v = a | first", "= 1", "x =",
-	"{{ x }} {% if t %}T{% endif %}", "{% endif %}", "{{ m }}", "%assign q = 1", "{%cycle 'a'", "{{ x }}\n{{ y | nosuch }}", "no-such-file.html", "{{ '../' | append: s }}", "a.html", "\x00", "{{ '{{' }}", "é{{ 'é' | upcase }}"}
+	"{{ x }} {% if t %}T{% endif %}", "{% endif %}", "{{ m }}", "%assign q = 1", "{%cycle 'a'", "{{ x }}\n{{ y | nosuch }}", "{{ a | xwhere_exp: 'it', 'it >' }}", "{{ a | xwhere_exp: 'it', n | join: ',' }}", "{{ a | xwhere_exp: 'it', 'it != 1' | join: ',' }}", "no-such-file.html", "{{ '../' | append: s }}", "a.html", "\x00", "{{ '{{' }}", "é{{ 'é' | upcase }}"}
 
 // CustomSources builds hostile templates around the custom tags.
 func customSource(pick func(n int) int) string {
